@@ -20,7 +20,7 @@ def a2mChar (abc : Option Abc) (m : Msa) (i pos : Nat) : Option UInt8 :=
   | none =>
     let sym := aseqAt m i pos
     let isRes := isAlpha sym
-    let sym := if sym == 79 then 88 else sym
+    let sym := if sym == 79 || sym == 111 then 88 else sym
     if cons then some (if isRes then toUpper sym else 45)
     else if isRes then some (toLower sym)
     else none
